@@ -12,6 +12,11 @@ BASE = "cd /repo && /venv/bin/python -m pytest -ra -q -p no:cacheprovider --time
 
 # id -> (category, technique, text, note, design_ref)
 T = {
+ "C02": ("model_checking",
+         "explicit-state product BFS: real HTMLTokenizer (+ real input stream) x reference tokenizer written from the WHATWG text; state key = suspended implementation state (obtained by a source that raises instead of signalling EOF) + suspended reference state; every transition runs the real tokenizer to EOF and compares the full token list; one-step bisimulation check of the key",
+         "Six character/keyword alphabets (tags+attributes, comments, DOCTYPE, RCDATA/RAWTEXT/script/PLAINTEXT with 8 start-state x last-start-tag configurations, character references in data/RCDATA/three attribute contexts, CDATA allowed/not) are explored breadth-first from the empty prefix and from seed prefixes up to the stated depth, modulo state equivalence. Every reachable (state x next letter) combination inside the bound is executed on the implementation and compared with the reference.",
+         "ref/tokenizer.py (about 900 lines, my transcription of the June-2020 WHATWG tokenizer; named references from html.entities.html5, C1 table from the cp1252 codec) is trusted; characters outside the alphabets are assumed to behave like the letter of the same class",
+         "6/C02"),
  "C13": ("exploration",
          "bounded exhaustive enumeration of token streams: the filter's complete (previous, token, next) decision domain (all streams <=3 over 134 walker tokens) + all streams of length 4-5 over a reduced alphabet, real filter, oracle = independent predicate written from the standard's optional-tags section; parse-equivalence clause over generated conforming trees in C07's space",
          "The filter decides from a 3-token window, so enumerating every stream of length <=3 over an alphabet that contains every omissible element (with/without attributes), look-alike names, foreign elements, void elements, text, whitespace, comments and doctype visits every decision it can make; longer streams over a reduced alphabet would expose state added by a change. Each removed token is checked against ref/optional_tags.py.",
